@@ -171,6 +171,26 @@ pub proof fn lemma_zero_exit<'a>(map: Map<&'a [Label<'a>], usize>, t0: Map<&'a [
 }
 
 /// exit through a pointer to an existing entry
+/// the pointer exit on every buffer that differs from the output only inside an RDLENGTH slot of the old buffer (window clause)
+pub proof fn lemma_ptr_exit_window<'a>(map: Map<&'a [Label<'a>], usize>, t0: Map<&'a [Label<'a>], usize>, k0: &'a [Label<'a>], m0: Seq<u8>, lv: Seq<Seq<u8>>, i: int, p: u16, m1: Seq<u8>)
+    requires labels_ok(lv), wl(lv) <= 254, 0 <= i < lv.len(), inv_refs(map, t0, lv, m0.len() as int, i),
+             map.contains_key(k0), labels_view(k0@) == lv.subrange(i, lv.len() as int),
+             p == map[k0] as u16,
+             m1 == m0 + run(lv.subrange(0, i)) + enc16(p | 0xC000u16),
+    ensures
+        forall|wa: int, mp: Seq<u8>| 0 <= wa && wa + 2 <= m0.len() && #[trigger] agree_out(m1, mp, wa) && refs_ok(t0, mp.subrange(0, m0.len() as int))
+            ==> refs_ok(map, mp) && dec_labels(mp, m0.len() as int, 0) == Some(lv) && mp.len() == m0.len() + inplace_len(mp, m0.len() as int),
+{
+    assert forall|wa: int, mp: Seq<u8>| 0 <= wa && wa + 2 <= m0.len() && #[trigger] agree_out(m1, mp, wa) && refs_ok(t0, mp.subrange(0, m0.len() as int))
+        implies refs_ok(map, mp) && dec_labels(mp, m0.len() as int, 0) == Some(lv) && mp.len() == m0.len() + inplace_len(mp, m0.len() as int) by {
+        let x = run(lv.subrange(0, i)) + enc16(p | 0xC000u16);
+        assert(m1 =~= m0 + x);
+        lemma_agree_suffix(m0, x, mp, wa);
+        let m0x = mp.subrange(0, m0.len() as int);
+        assert(mp =~= m0x + run(lv.subrange(0, i)) + enc16(p | 0xC000u16));
+        lemma_ptr_exit(map, t0, k0, m0x, lv, i, p, mp);
+    }
+}
 pub proof fn lemma_ptr_exit<'a>(map: Map<&'a [Label<'a>], usize>, t0: Map<&'a [Label<'a>], usize>, k0: &'a [Label<'a>], m0x: Seq<u8>, lv: Seq<Seq<u8>>, i: int, p: u16, m1: Seq<u8>)
     requires labels_ok(lv), wl(lv) <= 254, 0 <= i < lv.len(), inv_refs(map, t0, lv, m0x.len() as int, i), refs_ok(t0, m0x),
              map.contains_key(k0), labels_view(k0@) == lv.subrange(i, lv.len() as int),
@@ -368,15 +388,7 @@ def apply(c):
                         assert(io_buf(out) =~= m0 + run(lv.subrange(0, i as int)) + enc16(p | 0xC000u16));
                         lemma_ptr_exit(map_b, refs0, k0, m0, lv, i as int, p, io_buf(out));
                         // window clause: the same exit argument on every buffer that differs only inside an RDLENGTH slot of m0
-                        assert forall|wa: int, mp: Seq<u8>| 0 <= wa && wa + 2 <= m0.len() && #[trigger] agree_out(io_buf(out), mp, wa) && refs_ok(refs0, mp.subrange(0, m0.len() as int))
-                            implies refs_ok(name_refs@, mp) && dec_labels(mp, m0.len() as int, 0) == Some(lv) && mp.len() == m0.len() + inplace_len(mp, m0.len() as int) by {
-                            let x = run(lv.subrange(0, i as int)) + enc16(p | 0xC000u16);
-                            assert(io_buf(out) =~= m0 + x);
-                            lemma_agree_suffix(m0, x, mp, wa);
-                            let m0x = mp.subrange(0, m0.len() as int);
-                            assert(mp =~= m0x + run(lv.subrange(0, i as int)) + enc16(p | 0xC000u16));
-                            lemma_ptr_exit(map_b, refs0, k0, m0x, lv, i as int, p, mp);
-                        }
+                        lemma_ptr_exit_window(map_b, refs0, k0, m0, lv, i as int, p, io_buf(out));
                         assert(io_buf(out).subrange(0, m0.len() as int) =~= m0);
                         lemma_split(lv, i as int); lemma_run_len(lv);
                         if i == 0 { assert(lv.subrange(0, 0) =~= Seq::<Seq<u8>>::empty()); }
